@@ -70,6 +70,7 @@ theorem lex2_typ_facts (t : Lex2) (h : t.WF) :
   | cmt body => simp only [Lex2.typ]; exact ⟨by decide, fun e => absurd e (by decide), fun e => absurd e (by decide)⟩
   | cdc => simp only [Lex2.typ]; exact ⟨by decide, fun e => absurd e (by decide), fun e => absurd e (by decide)⟩
   | strI q its => simp only [Lex2.typ]; exact ⟨by decide, fun e => absurd e (by decide), fun e => absurd e (by decide)⟩
+  | identD n c cs => simp only [Lex2.typ]; exact ⟨by decide, fun e => absurd e (by decide), fun e => absurd e (by decide)⟩
 
 /-- code points of a plain function name with its parenthesis -/
 def fnChars : List (Nat × Nat) := [(40, 40), (45, 45), (48, 57), (65, 90), (95, 95), (97, 122)]
